@@ -1,6 +1,7 @@
 package scen
 
 import (
+	"encoding/json"
 	"fmt"
 	"strings"
 	"sync"
@@ -101,7 +102,7 @@ func installStatusMonitor(w *Writers, prop string) {
 func init() {
 	explore.Register(&explore.CheckDef{
 		ID: "C19", Level: "model_checking",
-		Rule: "explicit-state DFS over histories of local writes, merges, announcements to an observer (sync/topic/direct), restarts with Load and snapshot save/load, single- and multi-writer, one database per instance; gated-merge units park every block fetch of a merging replica and enumerate the release orders together with a local write and a duplicate announcement in flight; (progress,max) sampled synchronously inside every event-bus emission and at every quiescent state must never decrease while the store is open; in every quiescent state with a complete log progress == max and max Lamport time <= value <= entry count. Non-trivial = distinct states in which some replica holds entries of two writers.",
+		Rule: "explicit-state DFS over histories of local writes, merges, announcements to an observer (sync/topic/direct), restarts with Load and snapshot save/load, single- and multi-writer, one database per instance; gated-merge units park every block fetch of a merging replica and enumerate the release orders together with a local write and a duplicate announcement in flight; (progress,max) sampled synchronously inside every event-bus emission and at every quiescent state must never decrease while the store is open; in every quiescent state with a complete log progress == max and max Lamport time <= value <= entry count. a lock-granularity unit (sync shim) runs a writer against a merging thread with every Lock/RLock of the status code, the write path and the index as schedule points (preemption-bounded) and samples (progress,max) after every step. Non-trivial = distinct states in which some replica holds entries of two writers.",
 		Units: func(tier string) []explore.Unit {
 			var u []explore.Unit
 			d := 4
@@ -122,6 +123,17 @@ func init() {
 			for _, sh := range []string{"own0-chain3", "own2-chain3", "own2-fork", "own1-chain2x2"} {
 				u = append(u, gmUnits(GMArg{Kind: "eventlog", Shape: sh, Writes: 1, Dups: 1, Bound: gb}, 8, "G")...)
 			}
+			// lock granularity: a local write against the merge of two remote entries, every Lock/RLock of the
+			// status code, the write path and the index being a schedule point (preemption-bounded)
+			lb := 2
+			if tier == "thorough" {
+				lb = 3
+			}
+			for _, x := range c17Units(C17Arg{Kind: "eventlog", N: 1, Per: 2, Bound: lb, Locks: true, Merge: 2}, 16) {
+				x.Arg = "L" + x.Arg
+				x.Name = "status-" + x.Name
+				u = append(u, x)
+			}
 			return u
 		},
 		Budget: func(tier string) float64 {
@@ -131,6 +143,33 @@ func init() {
 			return 200
 		},
 		RunUnit: func(c *explore.Ctx) {
+			if strings.HasPrefix(c.Spec.Unit.Arg, "L") {
+				var a C17Arg
+				if err := json.Unmarshal([]byte(c.Spec.Unit.Arg[1:]), &a); err != nil {
+					c.Stats.HarnessErrs = append(c.Stats.HarnessErrs, err.Error())
+					return
+				}
+				d := &explore.ScheduleDFS{
+					Settle: settle, Scenario: "status-" + a.Name(),
+					New:    func() (explore.World, error) { return NewConcWritersStatus(a.Kind, a.N, a.Per, true, a.Merge, true) },
+					Bound:  a.Bound, Horizon: 600, Stats: c.Stats, Journal: c.JournalHist, Expired: c.Expired,
+					Shards: a.Shards, Shard: a.Shard,
+					Terminal: func(w explore.World, hist []string) []explore.Violation {
+						cw := w.(*ConcWriters)
+						st := cw.store.ReplicationStatus()
+						var out []explore.Violation
+						if p, m := st.GetProgress(), st.GetMax(); p != m {
+							out = append(out, explore.Violation{Signature: "at-rest-progress-differs-from-max", Detail: fmt.Sprintf("all threads returned, nothing parked: progress %d, max %d, %d entries", p, m, cw.store.OpLog().Len())})
+						}
+						return append(out, cw.Final()...)
+					},
+				}
+				d.Run()
+				for i := range c.Stats.Violations {
+					c.Stats.Violations[i].Property = "C19"
+				}
+				return
+			}
 			if strings.HasPrefix(c.Spec.Unit.Arg, "G") {
 				runGatedMerge(c, c.Spec.Unit.Arg[1:], "C19", func(w *Writers) { installStatusMonitor(w, "C19") })
 				return
